@@ -2,7 +2,8 @@ import GnarkVerif.Proofs.MerkleTreeGen
 import GnarkVerif.Props.C16_gen
 /-
 C16_tree_gen — tie T for the accumulator Merkle tree BUILDER of /repo/accumulator/merkletree/tree.go: `New`, `joinSubTrees`,
-`joinAllSubTrees`, `Root`, `Push`, `Prove`, `SetIndex`, `PushSubTree` are RE-TRANSLATED statement by statement on every run
+`joinAllSubTrees`, `Root`, `Push`, `Prove`, `SetIndex`, `PushSubTree` (and `ReadAll` of readers.go, for a reader that is a finite byte
+stream which never fails: `readFull` of the generated file is the semantics given to `io.ReadFull`) are RE-TRANSLATED statement by statement on every run
 (tools/goslp mode "imp" → Gen/Imp/MerkleTree.lean) and proved to REFINE `Tree` / `push` / `root` / `prove` / `setIndex` /
 `pushSubTree` / `hrun` of Model/Merkle.lean, so that the theorems of Props/C16.lean (root = RFC 6962 tree hash of the pushed leaves,
 `Prove` = leaf + audit path, honest proofs verify — here composed with the translated `VerifyProof` of Props/C16_gen —, cached
@@ -182,5 +183,34 @@ theorem C16tree_prove_verifies (p : Nat) (pt : Bool) (F : Nat) (hF : 63 ≤ F) (
   refine ⟨e, ?_⟩
   rw [e]
   exact C16gen_verify_complete hl hn h L p fuel hp hlen hfuel
+
+/-! ### `ReadAll` (readers.go) -/
+
+/-- (C16_readAll_is_push for the translated text) `ReadAll(r, seg)` of the generated code, for a reader that is the finite, never
+failing byte stream `r` (`readFull` of the generated file: the semantics given to `io.ReadFull`) and `seg > 0`, on the tree of the
+leaves `L`: returns nil and leaves the model's `readAll` tree — the stream cut into segments of `seg` bytes (the last one shorter,
+not padded), pushed one by one.  `fuel` bounds the number of segments (any `fuel ≥ |r|`), `F2`, `F3` the loops of the two `Push`
+call sites.  (`seg = 0`: the Go loop does not terminate — `io.ReadFull` on an empty buffer returns (0, nil) for ever; `seg < 0`:
+`make` panics.) -/
+theorem C16tree_readAll (p : Nat) (pt : Bool) (F2 F3 : Nat) (h2 : 63 ≤ F2) (h3 : 63 ≤ F3) (seg : Int) (hs : 0 < seg) (fuel : Nat)
+    (g : GTree) (r : B) (L : List B) (hinv : Inv g) (hg : abs g = pushAll hl hn (⟨[], 0, p, none, [], pt⟩ : Merkle.Tree B B) L)
+    (hf : r.length ≤ fuel) (hlen : L.length + fuel < 2^63) :
+    (ReadAll hl hn g r seg fuel F2 F3).2 = Err.nil ∧ Inv (ReadAll hl hn g r seg fuel F2 F3).1 ∧
+      abs (ReadAll hl hn g r seg fuel F2 F3).1 = readAll hl hn (abs g) r seg.toNat ∧
+      abs (ReadAll hl hn g r seg fuel F2 F3).1 =
+        pushAll hl hn ⟨[], 0, p, none, [], pt⟩ (L ++ chunks seg.toNat r.length r) := by
+  obtain ⟨k1, k2, k3⟩ := readAll_eq hl hn p pt F2 F3 h2 h3 seg hs fuel g r L hinv hg hf hlen
+  refine ⟨k1, k2, k3, ?_⟩
+  rw [k3, hg, readAll, ← pushAll_append]
+
+example :
+    let hl : B → B := fun d => 0 :: d
+    let hn : B → B → B := fun a b => 1 :: (a ++ b)
+    let g := (SetIndex hl hn (New hl hn {}) 1).1
+    let r : B := [1, 2, 3, 4, 5, 6, 7]
+    Inv g ∧ abs g = pushAll hl hn (⟨[], 0, 1, none, [], true⟩ : Merkle.Tree B B) [] ∧
+    (ReadAll hl hn g r 3 7 63 63).2 = Err.nil ∧
+    Root hl hn (ReadAll hl hn g r 3 7 63 63).1 63 = some (MTH hl hn [[1, 2, 3], [4, 5, 6], [7]]) := by
+  refine ⟨⟨by decide, by decide, by decide, by decide⟩, rfl, by decide, by decide⟩
 
 end GV.MerkleTreeGen
